@@ -48,7 +48,7 @@ func (mm *Mem) AllocRaw(size int, name string) *Alloc {
 		panic(fmt.Sprintf("core.Alloc: size %d", size))
 	}
 	a := &Alloc{Base: mm.next, Size: size, Bytes: make([]*smt.Term, size), Name: name}
-	adv := uint64(size) + 64 // red zone
+	adv := uint64(size) + 256 // red zone
 	adv = (adv + 63) &^ 63
 	mm.next += adv
 	mm.allocs = append(mm.allocs, a)
@@ -76,6 +76,20 @@ func (mm *Mem) Find(c uint64) *Alloc {
 	a := mm.allocs[i-1]
 	if c <= a.Base+uint64(a.Size) {
 		return a
+	}
+	return nil
+}
+
+// FindNear is Find, extended to addresses in the red zone just below an
+// allocation (a symbolic base plus a constant part that is slightly negative
+// relative to the allocation, e.g. p + len - 1).
+func (mm *Mem) FindNear(c uint64) *Alloc {
+	if a := mm.Find(c); a != nil {
+		return a
+	}
+	i := sort.Search(len(mm.allocs), func(i int) bool { return mm.allocs[i].Base > c })
+	if i < len(mm.allocs) && mm.allocs[i].Base-c <= 192 {
+		return mm.allocs[i]
 	}
 	return nil
 }
@@ -118,7 +132,7 @@ func (mm *Mem) Resolve(p *smt.Term) []Target {
 			rec(smt.Add(base.Args[2], k), smt.BAnd(g, smt.BNot(base.Args[0])), depth+1)
 			return
 		}
-		a := mm.Find(c)
+		a := mm.FindNear(c)
 		if a == nil {
 			out = append(out, Target{Guard: g, A: nil, Addr: p})
 			return
